@@ -214,8 +214,8 @@ Section Steps.
     - intros m0 [<-|[]]. destruct m; try contradiction; destruct res; try contradiction; exact I.
   Qed.
 
-  Lemma deliver_rep st orc dbok c r alive rid T ex k cnt : Inv st -> In (MRep c r alive rid T ex k cnt) (g_net st) ->
-    IE st (deliver cfg orc dbok st (MRep c r alive rid T ex k cnt)).
+  Lemma deliver_rep st orc dbok seen c r alive rid T ex k cnt : Inv st -> In (MRep c r alive rid T ex k cnt) (g_net st) ->
+    IE st (deliver cfg orc dbok seen st (MRep c r alive rid T ex k cnt)).
   Proof.
     intros HI Hm. cbn [deliver]. destruct (n_replicate r orc (g_nodes st r) c alive rid T ex k cnt) as [ns' outs] eqn:E.
     change (IE st (step_to st r ns' outs)). node_facts HI r. pose proof (HM _ Hm) as Hok. cbn in Hok.
@@ -238,8 +238,8 @@ Section Steps.
     - exact Hview.
   Qed.
 
-  Lemma deliver_conf st orc dbok c r T s k cnt idsok : Inv st -> In (MConf c r T s k cnt idsok) (g_net st) ->
-    IE st (deliver cfg orc dbok st (MConf c r T s k cnt idsok)).
+  Lemma deliver_conf st orc dbok seen c r T s k cnt idsok : Inv st -> In (MConf c r T s k cnt idsok) (g_net st) ->
+    IE st (deliver cfg orc dbok seen st (MConf c r T s k cnt idsok)).
   Proof.
     intros HI Hm. cbn [deliver]. destruct (n_confirm (g_nodes st r) T s k cnt idsok dbok) as [ns' res] eqn:E.
     apply step_nil. node_facts HI r. pose proof (HM _ Hm) as Hok. cbn in Hok. destruct Hok as (Ho & Hq & Hj).
@@ -292,14 +292,19 @@ Section Steps.
     constructor; auto. apply cut_ent_ok; auto.
   Qed.
 
-  Lemma deliver_syncreq st orc dbok r c from to : Inv st -> IE st (deliver cfg orc dbok st (MSyncReq r c from to)).
+  Lemma deliver_syncreq st orc dbok seen r c from to : Inv st -> IE st (deliver cfg orc dbok seen st (MSyncReq r c from to)).
   Proof.
     intros HI. cbn [deliver]. apply msgs_only; auto. node_facts HI c. cbn. destruct dbok; auto.
-    unfold n_sync_serve. apply serve_old_ok. apply Forall_rev. exact Hents.
+    unfold n_sync_serve. apply Forall_forall. intros e' He'. apply in_map_iff in He'. destruct He' as (e & <- & He).
+    assert (Hok : ent_ok st e).
+    { assert (F : Forall (ent_ok st) (serve_old (ns_wm (g_nodes st c)) from to (rev (ns_log (g_nodes st c))))) by (apply serve_old_ok; apply Forall_rev; exact Hents).
+      rewrite Forall_forall in F. auto. }
+    destruct Hok as (O & J). split; [exact O|]. cbn [en_cnt ent_setcnt en_tx]. intros Hq. apply J.
+    pose proof (N.le_min_l (en_cnt e) (seen e)). fold (c_q cfg) in Hq. lia.
   Qed.
 
-  Lemma deliver_syncresp st orc dbok c r cs : Inv st -> In (MSyncResp c r cs) (g_net st) ->
-    IE st (deliver cfg orc dbok st (MSyncResp c r cs)).
+  Lemma deliver_syncresp st orc dbok seen c r cs : Inv st -> In (MSyncResp c r cs) (g_net st) ->
+    IE st (deliver cfg orc dbok seen st (MSyncResp c r cs)).
   Proof.
     intros HI Hm. cbn [deliver]. destruct (n_sync_resp cfg r orc (g_nodes st r) cs) as [ns' outs] eqn:E.
     change (IE st (step_to st r ns' outs)). node_facts HI r. pose proof (HM _ Hm) as Hok. cbn in Hok.
@@ -380,8 +385,8 @@ Section Steps.
   Lemma ns_with_tasks_same ns : ns_with_tasks ns (ns_tasks ns) = ns.
   Proof. destruct ns; reflexivity. Qed.
 
-  Lemma deliver_repans st orc dbok r c rid T res : Inv st -> In (MRepAns r c rid T res) (g_net st) ->
-    IE st (deliver cfg orc dbok st (MRepAns r c rid T res)).
+  Lemma deliver_repans st orc dbok seen r c rid T res : Inv st -> In (MRepAns r c rid T res) (g_net st) ->
+    IE st (deliver cfg orc dbok seen st (MRepAns r c rid T res)).
   Proof.
     intros HI Hm. cbn [deliver]. destruct (n_rep_reply cfg c (g_nodes st c) r T res) as [ns' outs] eqn:E.
     change (IE st (step_to st c ns' outs)). node_facts HI c. pose proof (HM _ Hm) as Hok. cbn in Hok.
